@@ -26,7 +26,9 @@ C04Fails(t, r) ==
   LET outs == Outs(t.runs[r])
       Bad(Cl(_)) == {k \in 1..Len(outs) : ~Cl(outs[k])}
       a == Bad(C04a) b == Bad(C04b) c == Bad(C04c) d == Bad(C04d)
-  IN (IF a # {} THEN F("C04.a", r, First(a)) ELSE <<>>) \o (IF b # {} THEN F("C04.b", r, First(b)) ELSE <<>>)
+      bl == {k \in 1..Len(outs) : ~outs[k].stable}      \* asked again after the whole stream was fed, the readout object answers differently
+  IN (IF bl # {} THEN F("C04.stable", r, First(bl)) ELSE <<>>)
+     \o (IF a # {} THEN F("C04.a", r, First(a)) ELSE <<>>) \o (IF b # {} THEN F("C04.b", r, First(b)) ELSE <<>>)
      \o (IF c # {} THEN F("C04.c", r, First(c)) ELSE <<>>) \o (IF d # {} THEN F("C04.d", r, First(d)) ELSE <<>>)
 
 ValidOcts(outs) == LET v == SelectSeq(outs, LAMBDA x : x.valid) IN [i \in 1..Len(v) |-> v[i].o]
@@ -35,6 +37,7 @@ AllOcts(outs) == [i \in 1..Len(outs) |-> outs[i].o]
 C05Fails(t, r) ==
   LET outs == Outs(t.runs[r]) want == PlanReadouts(t.plan) IN
   IF AllOcts(outs) # want THEN F("C05.deliver", r, 0)
+  ELSE IF \E k \in 1..Len(outs) : ~outs[k].stable THEN F("C05.stable", r, 0)
   ELSE IF \E k \in 1..Len(outs) : ~outs[k].valid THEN F("C05.valid", r, 0) ELSE <<>>
 
 C16Fails(t, r) ==
